@@ -1,2 +1,5 @@
 import PomerolModel.Scalar
 import PomerolModel.Model.Loop
+import PomerolModel.Model.MC4
+import PomerolModel.Model.Operator
+import PomerolModel.Properties.C15
